@@ -132,3 +132,68 @@ Proof.
     rewrite Hs, <- He, H2. split; [reflexivity|]. split; [reflexivity|]. split; [apply P_line|exact H3].
   - exfalso. rewrite (le_ch _ _ Hl) in Hch. discriminate.
 Qed.
+
+(* ---- (5) the lexer invariant along a run ---------------------------------------------------------------- *)
+Lemma next_token_tok_not_eof inp s t s1 : leof inp s -> next_token s = (LTok t, s1) -> False.
+Proof. intros Hl E. destruct (next_token_eof s (le_rest _ _ Hl)) as (sx & Hx). rewrite Hx in E. discriminate. Qed.
+
+Lemma lex_run_linv inp : forall s q sm, lex_run s q sm -> forall pre, linv inp s pre ->
+  (exists pm, linv inp sm pm) \/ leof inp sm.
+Proof.
+  induction 1 as [s|s t s1 ts s' E Hrun IH]; intros pre Hi; [left; eauto|].
+  destruct (tok_end_by_rest inp s pre t s1 Hi E) as [(pe & c & _ & _ & H3 & _)|[Hl _]].
+  - apply (IH _ H3).
+  - inversion Hrun as [|s0 t2 s2 ts2 s3 E2 Hr2]; subst; [right; exact Hl|].
+    exfalso. exact (next_token_tok_not_eof inp s1 t2 s2 Hl E2).
+Qed.
+
+(* a block of tokens closed by an EOL, consumed text ending with a newline: the line of the closing EOL *)
+Theorem block_eol inp s pre blk s1 A : linv inp s pre -> lex_run s (blk ++ [eol_tok]) s1 ->
+  inp = (A ++ [10%N]) ++ rest s1 ->
+  exists sm t, lex_run s blk sm /\ next_token sm = (LTok t, s1) /\ ty t = EOL /\
+               tstart t = P A /\ fst (tstart t) = Z.of_nat (count_nl A) /\ linv inp s1 (A ++ [10%N]).
+Proof.
+  intros Hi Hrun Hinp. destruct (lex_run_snoc_inv _ _ _ _ Hrun) as (sm & t & Hq & E & Ht).
+  assert (Hty : ty t = EOL) by (unfold etok, eol_tok in Ht; congruence).
+  destruct (lex_run_linv inp _ _ _ Hq pre Hi) as [[pm Hm]|Hl]; [|exfalso; exact (next_token_tok_not_eof inp sm t s1 Hl E)].
+  destruct (closing_eol_line inp sm pm t s1 A Hm E Hty Hinp) as (H1 & _ & H3 & H4).
+  exists sm, t. split; [exact Hq|]. split; [exact E|]. split; [exact Hty|]. split; [exact H1|]. split; [exact H3|exact H4].
+Qed.
+
+(* ---- (6) every fragment of the formatter's output --------------------------------------------------------- *)
+(* frun with the closing EOL token of every block and its line: one less than the number of newlines of the
+   text consumed so far *)
+Fixpoint frun_lines (inp : list N) (s : lstate) (es : list (bool * entry)) (rs : list (list N)) : Prop :=
+  match es, rs with
+  | [], [] => True
+  | (b, e) :: er, R :: rr =>
+    exists sm t s1, lex_run s ((if b then [eol_tok] else []) ++ entry_toks e) sm /\
+      next_token sm = (LTok t, s1) /\ ty t = EOL /\ rest s1 = R /\
+      (forall C, inp = C ++ R -> Z.of_nat (count_nl C) = fst (tstart t) + 1) /\
+      frun_lines inp s1 er rr
+  | _, _ => False
+  end.
+
+Theorem frun_eol_lines inp : forall es rs s pre, linv inp s pre -> frun s es rs ->
+  Forall (fun R => exists A, inp = (A ++ [10%N]) ++ R) rs -> frun_lines inp s es rs.
+Proof.
+  induction es as [|[b e] er IH]; intros rs s pre Hi Hf Hrs; destruct rs as [|R rr]; cbn [frun frun_lines] in *; try contradiction; [exact I|].
+  destruct Hf as (s1 & Hrun & HR & Hrest). pose proof (Forall_inv Hrs) as [A HA]. pose proof (Forall_inv_tail Hrs) as Hrr. rewrite <- HR in HA.
+  rewrite app_assoc in Hrun.
+  destruct (block_eol inp s pre _ s1 A Hi Hrun HA) as (sm & t & Hq & E & Hty & Hs & Hline & Hl1).
+  exists sm, t, s1. split; [exact Hq|]. split; [exact E|]. split; [exact Hty|]. split; [exact HR|]. split.
+  - intros C HC. rewrite <- HR in HC. rewrite HA in HC at 1. apply app_inv_tail in HC. subst C. rewrite count_nl_app. cbn [count_nl]. rewrite Hline.
+    replace (N.eqb 10 10) with true by reflexivity. lia.
+  - apply (IH rr s1 _ Hl1 Hrest Hrr).
+Qed.
+
+Lemma rems_split : forall ds first last, Forall (fun m => exists x, fd_text m = x ++ [10%N]) ds ->
+  Forall (fun R => exists A, fmt_join ds first last = (A ++ [10%N]) ++ R) (rems ds).
+Proof.
+  induction ds as [|d r IH]; intros first last Hw; [constructor|].
+  inversion Hw as [|x y [tx Hx] Hr]; subst. cbn [rems fmt_join]. constructor.
+  - exists ((if (negb first && (last <? fd_from d))%bool then [10%N] else []) ++ tx). rewrite Hx, <- !app_assoc. reflexivity.
+  - specialize (IH false (fd_to d) Hr). revert IH. apply Forall_impl. intros R [A HA].
+    exists (((if (negb first && (last <? fd_from d))%bool then [10%N] else []) ++ fd_text d) ++ A).
+    rewrite HA, <- !app_assoc. reflexivity.
+Qed.
